@@ -1,14 +1,16 @@
 (* C05 — Adj, AdjT, Retr, +, Jinvp, Jr satisfy their defining tangent-space identities.
-   Statements only (over R); proofs in Proofs/LieTangent.v, LieTangent2.v .. LieTangent5.v.
+   Statements only (over R); proofs in Proofs/LieTangent.v, LieTangent2.v .. LieTangent7.v.
    Still tie-only: the SE3 / Sim3 Adj identities on the Taylor branches of the translation block (they hold
    only approximately there; the exact defect of SE3 is C05_adj_identity_SE3_taylor_partial), Jinvp as the
-   derivative of Log(Exp(tau) @ X) (only "Jl(Log X) Jinvp(X,p) = p" is proved, not for Sim3 whose Jl / Jl_inv
-   are truncated series), Frechet (o(|d|)) form of the right-Jacobian statement (the directional form is proved). *)
+   derivative of Log(Exp(tau) @ X) for SE3 / RxSO3 / Sim3 (proved for SO3 in regime 1 of Log; for SE3 / RxSO3 only
+   "Jl(Log X) Jinvp(X,p) = p"; Sim3's Jl / Jl_inv are truncated series), the Frechet (o(|d|)) form of the
+   right-Jacobian statement (the directional form is proved), dtype / batching (tie). *)
 From Coq Require Import Reals List.
+From Coquelicot Require Import Coquelicot.
 Import ListNotations.
 From PV Require Import Base.Num Model.LieGroup Model.LieExp Model.LieLog Model.LieJac Model.LieTangent
   Proofs.LieGroup Proofs.LieExp Proofs.LieLog Proofs.LieTangent
-  Proofs.LieTangent2 Proofs.LieTangent3 Proofs.LieTangent4.
+  Proofs.LieJac Proofs.LieTangent2 Proofs.LieTangent3 Proofs.LieTangent4 Proofs.LieTangent5 Proofs.LieTangent6 Proofs.LieTangent7.
 Local Open Scope R_scope.
 #[local] Remove Hints NumQ NumZ : typeclass_instances.
 
@@ -92,6 +94,31 @@ Proof.
   unfold sim3_arg. now destruct (Sim3_AdjTXa X (tau, phi, sg)) as [[? ?] ?].
 Qed.
 
+(* ---- every algebra element, all regimes (incl. the Taylor branches): the rotation / scale parts of both sides agree
+   exactly and the translation parts differ exactly by the defect of the single-matrix identity
+   "Exp(psi) = I + Jl(psi)[psi]x" resp. "exp(sigma) Exp(psi) = I + Ws(psi,sigma)([psi]x + sigma I)" at psi = R phi,
+   applied to the translation t of X (missing for the full identity: that defect is non-zero, though tiny, outside
+   the regimes of C05_adj_identity_SE3 / _Sim3) *)
+Theorem C05_adj_identity_SE3_all_partial : forall (eps : R) (X : se3R) (a : vec3R * vec3R), unitq (snd X) ->
+  let psi := SO3_AdjXa (snd X) (snd a) in let t := fst X in
+  snd (SE3_mul X (se3_exp eps a)) = snd (SE3_mul (se3_exp eps (SE3_AdjXa X a)) X) /\
+  fst (SE3_mul (se3_exp eps (SE3_AdjXa X a)) X) =
+    vadd (fst (SE3_mul X (se3_exp eps a)))
+         (vsub (SO3_act (so3_exp eps psi) t) (vadd t (mvmul (so3_Jl eps psi) (vcross psi t)))).
+Proof. exact adj_identity_SE3_all. Qed.
+Theorem C05_adj_identity_Sim3_all_partial : forall (eps : R) (X : sim3R) (tau phi : vec3R) (sg : R), unitq (fst (snd X)) ->
+  let psi := SO3_AdjXa (fst (snd X)) phi in let t := fst X in
+  let a' := (let '(tau', phi', sg') := Sim3_AdjXa X (tau, phi, sg) in (tau', (phi', sg'))) in
+  snd (Sim3_mul X (sim3_exp eps (tau, (phi, sg)))) = snd (Sim3_mul (sim3_exp eps a') X) /\
+  fst (Sim3_mul (sim3_exp eps a') X) =
+    vadd (fst (Sim3_mul X (sim3_exp eps (tau, (phi, sg)))))
+         (vsub (vscale (exp sg) (SO3_act (so3_exp eps psi) t))
+               (vadd t (mvmul (rxso3_Ws eps (psi, sg)) (vadd (vcross psi t) (vscale sg t))))).
+Proof.
+  intros eps X tau phi sg Hu. pose proof (adj_identity_Sim3_all eps X tau phi sg Hu) as H. cbv zeta in H |- *.
+  unfold sim3_arg in H. now destruct (Sim3_AdjXa X (tau, phi, sg)) as [[? ?] ?].
+Qed.
+
 (* ---- Exp(-a) = Inv(Exp(a)): rxso3 in every regime; se3 and sim3 on the closed-form / exact degenerate regimes *)
 Theorem C05_exp_neg_is_inverse_rxso3 : forall (eps : R) (phi : vec3R) (sg : R),
   rxso3_exp eps (vneg phi, - sg) = RxSO3_inv (rxso3_exp eps (phi, sg)).
@@ -112,6 +139,15 @@ Proof. exact Jr_small. Qed.
 Theorem C05_Jr_is_Jl_neg_everywhere_refuted : forall eps : R, 0 < eps -> eps <= 1 ->
   exists x : vec3R, vnorm x <= eps /\ so3_Jr eps (v3_l x) <> m3rows (so3_Jl eps (vneg x)).
 Proof. exact Jr_is_Jl_neg_small_refuted. Qed.
+
+(* SO3Type.Jr(X) = X.Log().Jr() *)
+Theorem C05_SO3_Jr_as_coded : forall (eps : R) (X : list R), SO3_Jr eps X = so3_Jr eps (log_l eps 0 X).
+Proof. exact SO3_Jr_def. Qed.
+(* on that branch the returned identity is within |x| (<= eps) of Jl(-x) in every entry *)
+Theorem C05_Jr_small_close_to_Jl_neg : forall (eps : R) (x : vec3R), vnorm x <= eps -> eps <= 1 ->
+  forall i j, (i < 3)%nat -> (j < 3)%nat ->
+  Rabs (nth j (nth i (so3_Jr eps (v3_l x)) []) 0 - nth j (nth i (m3rows (so3_Jl eps (vneg x))) []) 0) <= vnorm x.
+Proof. exact Jr_small_close. Qed.
 
 (* ---- Jinvp(X, p) = Jl_inv(Log X) p (as coded), and it is the inverse left Jacobian at Log X applied to p:
    Jl(Log X) Jinvp(X, p) = p, for SO3, SE3, RxSO3 whenever the rotation angle theta of Log X satisfies
@@ -134,8 +170,46 @@ Theorem C05_jinvp_inverts_Jl_RxSO3 : forall (eps : R) (X p : list R), 0 <= eps -
   eps < vnorm (SO3_log eps (fst (l_RxSO3 X))) -> vnorm (SO3_log eps (fst (l_RxSO3 X))) < 2 * PI ->
   lmv (JlM eps 2 (log_l eps 2 X)) (jinvp eps 2 X p) = p.
 Proof. exact jinvp_RxSO3. Qed.
+(* ---- Jr is the right Jacobian of so3 Exp (directional form of Exp(x+d) = Exp(x) @ Exp(Jr(x) d) + o(|d|)), closed-form
+   branch: for every direction d the curves e |-> Exp(x + e d) and e |-> Exp(x) @ Exp(e Jr(x) d) agree at e = 0 and have
+   the same derivative there, component by component ([qc i] = i-th quaternion component); the common derivative is
+   Exp(x) (Jr(x) d / 2, 0) *)
+Theorem C05_Jr_is_right_jacobian : forall (eps : R) (x d : vec3R), 0 < eps -> eps < vnorm x ->
+  let Jrd := l_v3 (lmv (so3_Jr eps (v3_l x)) (v3_l d)) in
+  so3_exp eps (vadd x (vscale 0 d)) = SO3_mul (so3_exp eps x) (so3_exp eps (vscale 0 Jrd)) /\
+  forall i, exists D,
+    is_derive (fun e => qc i (so3_exp eps (vadd x (vscale e d)))) 0 D /\
+    is_derive (fun e => qc i (SO3_mul (so3_exp eps x) (so3_exp eps (vscale e Jrd)))) 0 D.
+Proof. exact Jr_is_right_jacobian. Qed.
+Theorem C05_exp_right_derivative : forall (eps : R) (x d : vec3R) (i : nat), 0 <= eps -> eps < vnorm x ->
+  is_derive (fun e => qc i (so3_exp eps (vadd x (vscale e d)))) 0
+            (qc i (SO3_mul (so3_exp eps x) (vscale (1 / 2) (l_v3 (lmv (so3_Jr eps (v3_l x)) (v3_l d))), 0))).
+Proof. exact exp_right_derivative. Qed.
+
+(* ---- Jinvp(X, p) is the first-order change of Log(Exp(e p) @ X) at e = 0 in direction p: SO3, every unit X in
+   regime 1 of Log (|v| > eps, |w| > eps: every rotation angle strictly between the identity regime and pi, both
+   hemispheres) whose Log is on the closed-form branch of Jl_inv; [vc i] = i-th vector component *)
+Theorem C05_jinvp_is_log_derivative_SO3 : forall (eps : R) (X : quatR) (p : vec3R) (i : nat), 0 < eps -> unitq X ->
+  eps < vnorm (qv X) -> eps < Rabs (qw X) -> eps < vnorm (SO3_log eps X) ->
+  is_derive (fun e => vc i (SO3_log eps (SO3_mul (so3_exp eps (vscale e p)) X))) 0
+            (vc i (l_v3 (jinvp eps 0 (q_l X) (v3_l p)))).
+Proof. exact jinvp_is_log_derivative_SO3. Qed.
+
+(* the hypotheses above are satisfiable at the float64 eps *)
+Example C05_log_hypotheses_satisfiable :
+  let eps := / 4503599627370496 in let X : quatR := ((3 / 5, 0, 0), 4 / 5) in
+  0 < eps /\ unitq X /\ eps < vnorm (qv X) /\ eps < Rabs (qw X) /\
+  eps < vnorm (SO3_log eps X) /\ vnorm (SO3_log eps X) < 2 * PI.
+Proof. exact log_hypotheses_satisfiable. Qed.
+Example C05_adj_hypotheses_satisfiable :
+  let eps := / 4503599627370496 in
+  0 <= eps /\ unitq (fst (snd (Sim3_id (F:=R)))) /\ snd (snd (Sim3_id (F:=R))) <> 0 /\
+  eps < vnorm (F:=R) (1, 0, 0) /\ eps < Rabs 1.
+Proof. exact adj_hypotheses_satisfiable. Qed.
 
 Print Assumptions C05_adj_identity_SO3. Print Assumptions C05_adjT_identity_SO3. Print Assumptions C05_adj_identity_RxSO3.
 Print Assumptions C05_adjT_identity_RxSO3. Print Assumptions C05_retr_is_exp_mul. Print Assumptions C05_add_group_ignores_tail.
 Print Assumptions C05_add_algebra_is_vector_add. Print Assumptions C05_exp_neg_is_inverse. Print Assumptions C05_Jr_zero. Print Assumptions C05_Jr_is_Jl_neg_partial.
 Print Assumptions C05_adj_identity_SE3. Print Assumptions C05_adjT_identity_SE3. Print Assumptions C05_adj_identity_SE3_taylor_partial. Print Assumptions C05_adj_identity_Sim3. Print Assumptions C05_adjT_identity_Sim3. Print Assumptions C05_exp_neg_is_inverse_rxso3. Print Assumptions C05_exp_neg_is_inverse_se3. Print Assumptions C05_exp_neg_is_inverse_sim3. Print Assumptions C05_Jr_small_is_identity. Print Assumptions C05_Jr_is_Jl_neg_everywhere_refuted. Print Assumptions C05_jinvp_as_coded. Print Assumptions C05_Jl_Jl_inv_so3. Print Assumptions C05_jinvp_inverts_Jl_SO3. Print Assumptions C05_jinvp_inverts_Jl_SE3. Print Assumptions C05_jinvp_inverts_Jl_RxSO3.
+Print Assumptions C05_Jr_small_close_to_Jl_neg. Print Assumptions C05_Jr_is_right_jacobian. Print Assumptions C05_exp_right_derivative. Print Assumptions C05_jinvp_is_log_derivative_SO3. Print Assumptions C05_log_hypotheses_satisfiable. Print Assumptions C05_adj_hypotheses_satisfiable.
+Print Assumptions C05_adj_identity_SE3_all_partial. Print Assumptions C05_adj_identity_Sim3_all_partial. Print Assumptions C05_SO3_Jr_as_coded.
